@@ -116,6 +116,10 @@ def distinct(xs):
     return all([xs[i] != xs[j] for i in range(len(xs)) for j in range(i + 1, len(xs))])
 
 
+def distinct_pairs(xs, ys):
+    return all([any([xs[i] != xs[j], ys[i] != ys[j]]) for i in range(len(xs)) for j in range(i + 1, len(xs))])
+
+
 def count_types_before(ir, t):
     n = 0
     for s in ITG_TYPES[:t]:
@@ -230,3 +234,40 @@ def tensor_rule_ok(points, weights, factors):
         ok.append(weights[k] == prod([factors[d][1][q[d]] for d in range(len(sizes))]))
         ok.append(all([points[k][d] == factors[d][0][q[d]][0] for d in range(len(sizes))]))
     return all(ok)
+
+
+# ---------------------------------------------------------------- quantifiers / provenance (C06 unbounded contract)
+def forall_k(n, f):
+    """for all k in range(n): f(k).  Natively a loop; in E1 a fresh index under the range hypothesis."""
+    return all([f(k) for k in range(n)])
+
+
+def paired_gather(ir, result, t):
+    """Segment t of ids/names/domains is the SAME permutation of the type's ids/names/domains."""
+    return segment_is_paired_permutation(ir, result, t)
+
+
+# ---------------------------------------------------------------- C16: formatter structure
+def wrap(s, cond):
+    if cond:
+        return "(" + s + ")"
+    return s
+
+
+def one_of(x, alternatives):
+    """x equals one of the alternatives (in E1: one of the equalities is VALID on the path, i.e. the choice depends
+    on nothing but what the path fixed: the classes of parent and children)."""
+    return any([x == a for a in alternatives])
+
+
+def bools(n):
+    out = [[]]
+    for _ in range(n):
+        out = [b + [x] for b in out for x in (False, True)]
+    return out
+
+
+def doc(x):
+    from contracts.c_formatter import spec_doc
+
+    return spec_doc(x)
